@@ -250,6 +250,12 @@ def validate(ctx: Ctx, runs, *, ver, retries, name, what, conformance=True, focu
         at = int(clause.split(" @event ")[1]) if " @event " in clause else len(r["events"])
         ctx.violation(f"{what} #{k}", cl, {"clause": cl, "at_event": at, "ver": ver, "retries": retries,
                                            "events": r["events"][:at], "scenario": r.get("predicted")})
+    acts = ctx.extra.setdefault("environment_actions_exercised_on_real_code", {})
+    for r in runs:
+        for st in r.get("steps") or []:
+            if st:
+                k = st[0]["e"] + (":" + st[0].get("op", "") if st[0]["e"] == "call" else "")
+                acts[k] = acts.get(k, 0) + 1
     if conformance:
         big = consts(ver, retries, ctrmod=4096, hsretries=3, calls=BIG["MaxCalls"], conn=BIG["MaxConn"], fly=BIG["MaxFly"], keys=BIG["MaxKeys"],
                      life=True, hs="HSAll", data="DataAll" if ver == 3 else "V2All")
